@@ -1,6 +1,6 @@
 """C09 — parent/child lineage and handler context are attributed correctly."""
 from .. import scenlib as S
-from ._common import flat, mk, t_tree
+from ._common import flat, matrix_jobs, mk, t_tree
 
 META = dict(
     explanation='Who dispatched what, inside which handler invocation, is recorded by the harness; after the run event_parent_id and '
@@ -52,4 +52,5 @@ def jobs(tier):
             mk('C09', 'samefn', S.samefn(('A', 'B')), witnesses=W, max_paths=6000),
             mk('C09', 'x2/other_running', S.two_bus_await('other_running', ('B', 'A')), witnesses=W, max_paths=6000),
         ]
+    out += matrix_jobs('C09', 'm1', tier)
     return flat(out)
